@@ -14,7 +14,8 @@ TRUSTED = ['tokio mpsc/oneshot channels are FIFO and single-consumer', 'tokio_ut
 UNDECIDED = ['channel and Framed FIFO behaviour (trusted)']
 ASSUMPTIONS = []
 SHARED = [('C07', ('B2.reader', 'B7.'), 'R14.framing'), ('C06', ('G1.', 'G2.'), 'R14.framing'), ('C05', ('N1.', 'N2.', 'N3.', 'N4.', 'N5.', 'N8.'), 'R11.ids-unique'), ('C02', ('S13.',), 'R12.id-on-the-wire'), ('C10', ('Q4.entries-only.start', 'Q4.entries-only.collects', 'Q4.entries-only.finish'), 'R13.referrals-of-this-search'),
-          ('C12', ('O1.scrub-own-id', 'O2.scrub-own-id', 'O3.scrub-key'), 'R15.timeout-disturbs-no-other-operation')]      # routing by ID presupposes that concurrent operations never share an ID and that the ID of an operation the client gave up is not handed out again while its late reply may still arrive (numbering only advances); an expired timeout makes the driver forget exactly the timed-out operation: the scrub names that operation's own ID (not whatever the handle issued before it, which may be a running search) and the scrub arm removes nothing else
+          ('C12', ('O1.scrub-own-id', 'O2.scrub-own-id', 'O3.scrub-key'), 'R15.timeout-disturbs-no-other-operation'),
+          ('C17', ('W3.',), 'R16.no-response-from-before-the-tls-upgrade')]      # routing by ID presupposes that concurrent operations never share an ID and that the ID of an operation the client gave up is not handed out again while its late reply may still arrive (numbering only advances); an expired timeout makes the driver forget exactly the timed-out operation: the scrub names that operation's own ID (not whatever the handle issued before it, which may be a running search) and the scrub arm removes nothing else; R16 stands for "a response whose ID matches no outstanding operation is delivered to nobody" across the StartTLS upgrade: the driver that runs over the protected transport decodes only what arrives through it - the rebuilt Framed starts with an empty read buffer, so a message the peer appended in cleartext to the StartTLS response (while no operation with its ID existed) is not kept and handed to the first operation that later takes that ID
 
 RFC4511_SEARCH_RESP = {4: 'SearchItem::Entry', 25: 'SearchItem::Entry', 19: 'SearchItem::Referral', 5: 'SearchItem::Done'}
 
